@@ -382,12 +382,27 @@ def _slow_euclid_operands():
     return [x for x in out if 0 < x < (1 << 64) and x % P != 0]
 
 
+def _wrap_threshold_operands(tier):
+    """operands next to 2^64 * k / m for small m (and the same for p): where a small multiple of the operand (2a, 3a, 5a ...) or of
+    an early remainder wraps 64 bits - a quotient shortcut that compares with k*newr in machine arithmetic fails exactly there"""
+    out = set()
+    ms = range(2, 10) if tier == 'quick' else range(2, 18)
+    for m in ms:
+        for k in range(1, m):
+            for base in ((k << 64) // m, (P * k) // m):
+                for d in (-2, -1, 0, 1, 2, 3):
+                    v = base + d
+                    if 0 < v < (1 << 64) and v % P:
+                        out.add(v)
+    return sorted(out)
+
+
 def check_inv_points(rep, mod, tier):
     """constant propagation through inv for singleton operands (both canonical and non-canonical representations):
     the loop must terminate within the Euclid bound and the result times the operand must be one"""
     name = mod.find(SIG_INV)
     site = site_of(mod, name)
-    pts = list(INV_POINTS) + _slow_euclid_operands()
+    pts = list(INV_POINTS) + _slow_euclid_operands() + _wrap_threshold_operands(tier)
     if tier != 'quick':
         import random
         rnd = random.Random(10)
